@@ -50,7 +50,7 @@ MinServing == St.phase = "running" => Len(St.alive) >= T.cfg.minT
 
 (* ---------------- C11 *)
 \* join()/join(t) answered True on a pool that was running from call to return
-JoinSound == (E.k = "ret" /\ E.op[1] \in {"join", "joint"} /\ E.res = "true" /\ E.clean)
+JoinSound == (E.k = "ret" /\ E.op[1] \in {"join", "joint", "joint0"} /\ E.res = "true" /\ E.clean)
                 => \A i \in 1..Len(E.snap) : Over(St.ts[E.snap[i]])
 \* when stop() has returned, no worker will take a task any more: none of them reads the queue again
 WorkersDieAfterStop == St.phase = "stopped" => St.srv = <<>>
@@ -63,7 +63,7 @@ NotStranded == (AtEnd /\ St.phase = "running" /\ Queued # {}) => Len(St.running)
 \* C11/C10: a client may stay blocked only in join() behind gate-blocked / never-started work, or in stop()
 \* behind a gate-blocked task
 LegitBlock(i) == LET op == T.blockedop[i] IN
-                 \/ op \in {"join", "joint"} /\ (St.running # <<>> \/ (St.phase # "running" /\ Queued # {}))
+                 \/ op = "join" /\ (St.running # <<>> \/ (St.phase # "running" /\ Queued # {}))      \* (a join with a time-out never stays blocked)
                  \/ op \in {"stop", "clear"} /\ St.running # <<>>
 NoDeadlock == AtEnd => \A i \in 1..Len(T.blocked) : LegitBlock(i)
 \* C11: after a completed stop every worker thread has terminated
